@@ -8,7 +8,7 @@ Inductive case :=
 | CookieCase (secret addr params cookie : list byte)
 | ParamsCase (h : hello) (params : list byte)
 | VerifyCase (s a p s2 a2 p2 presented : list byte) (same accepted : bool)
-| LoopCase (secret addr : list byte) (hs : list hello) (rs : list resp).
+| LoopCase (secret drawn addr : list byte) (hs : list hello) (rs : list resp).
 
 Definition HVR_T : N := 5635.   (* record type 22, handshake type 3 *)
 
@@ -39,7 +39,11 @@ Definition code (c : case) : N :=
   | ParamsCase h p => if bytes_eqb (marshal_for_cookie h) p then 0%N else 4%N
   | VerifyCase s a p s2 a2 p2 pres same ok =>
       if ok && negb same then 2%N else if negb ok && same then 3%N else 0%N
-  | LoopCase secret addr hs rs => loop_scan (negb (Nat.eqb (length secret) 0)) secret addr hs rs
+  | LoopCase secret drawn addr hs rs =>
+      (* an unconfigured (empty) secret is the 32 bytes the connection drew from Config.Rand,
+         which the harness supplies and therefore knows *)
+      let eff := effective_secret secret drawn in
+      loop_scan (negb (Nat.eqb (length eff) 0)) eff addr hs rs
   end.
 
 Definition mismatch (c : case) : bool :=
